@@ -73,6 +73,19 @@ theorem C17_walk_cache_grows (t : Tree) (all : Bool) (fuel : Nat) (seen : List B
     ∀ x ∈ seen, x ∈ (walk t all fuel seen shown real).2 :=
   WalkTerm.walk_seen_sub t all fuel seen shown real
 
+/-- without -a, no directory with a hidden name (longer than one byte, starting with '.') is
+    ever listed — a sub-directory, a link, or the starting point itself, at any depth, on any tree -/
+theorem C17_walk_no_hidden (t : Tree) (fuel : Nat) (seen : List Bytes) (shown real : Bytes) :
+    ∀ p ∈ (walk t false fuel seen shown real).1, ¬ WalkTerm.hiddenName (baseName p.1) :=
+  WalkTerm.walk_no_hidden t fuel seen shown real
+
+/-- what is listed is the starting directory, a sub-directory node, or the target of a directory
+    link: files and links to files are never walked into -/
+theorem C17_walk_lists_dirs (t : Tree) (all : Bool) (fuel : Nat) (seen : List Bytes) (shown real : Bytes) :
+    ∀ p ∈ (walk t all fuel seen shown real).1,
+      p.2 = real ∨ (∃ n ∈ t, n.kind = .dir ∧ n.path = p.2) ∨ p.2 ∈ targets t :=
+  WalkTerm.walk_lists_dirs t all fuel seen shown real
+
 /-- a cyclic tree (show/shot/up -> show, next to a link to a flat directory): the walk ends, and
     lists the second pass through the cycle without following its links again -/
 example :
